@@ -673,6 +673,12 @@ BASE_NAMES = ['inst1', 'inst2', 's1', 's2', 'tag', 'ra', 'rm', '__get__', '__set
 
 def modelled_name(enc, r, n):
     """Is attribute name n of receiver r within the part of the class dicts the heap carries?"""
+    if n == '__annotations__':
+        # CPython (3.10+) materialises an empty __annotations__ in a class's __dict__ on the first
+        # `cls.__annotations__` read (inspect, dir-driven probes, jedi's own signature code): the class
+        # dicts the heap was encoded from change under the run for this one key, in an order the model
+        # does not carry.  Not queried (found as a false alarm: model input stale, not jedi wrong).
+        return False
     T = r if isinstance(r, type) else type(r)
     chain = list(class_mro(T)) + (list(class_mro(type(r))) if isinstance(r, type) else [])
     for c in chain:
